@@ -119,3 +119,68 @@ _pb("C19", "contract-based deductive verification (pyvc, read-only heap with gho
     "well-formed tree of any size, with the contracts of children/terminals assumed (trusted_base). children, terminals, "
     "preorder, postorder, levels and the export numbering are bounded only.",
     "proof for siblings/dominance/lca, bounded stand-in for the rest; 'other'")
+
+_pb("C04", "contract-based deductive verification (pyvc) of the mover step (detach/attach idiom) as a block contract at every re-attachment site of root_attach, raising, boyd_split and the three punctuation movers; bounded stand-in for whole transformations and sequences",
+    "Every `children.remove(X)` of the six re-attaching transformations is located in the real AST and the surrounding "
+    "step is executed symbolically on an arbitrary link-consistent heap: links stay consistent, only X changes parent, the old "
+    "parent loses exactly X, the target gains exactly X (or X becomes a detached root). Acyclicity, 'no childless constituent', "
+    "token sequence and label multisets are bounded only.",
+    "proof of the link-consistency step at 9 sites (block contracts), bounded stand-in for the transformations; 'other'")
+_pb("C09", "contract-based deductive verification (pyvc) of grammarconst.label_strip_fanout (loop invariant, variant, raises iff all digits); bounded stand-in for the grammar files",
+    "label_strip_fanout removes exactly the maximal trailing digit run and raises IndexError exactly for all-digit "
+    "labels (proved, with termination). File formats and the CLI are bounded only.",
+    "proof for label_strip_fanout, bounded stand-in for the writers/readers; 'other'")
+_pb("C11", "contract-based deductive verification (pyvc) of filter_by_length; bounded stand-in for the token-editing transformations",
+    "filter_by_length drops exactly the trees the operator names (proved over the contract of terminals). The other "
+    "token-editing transformations are bounded only.",
+    "proof for filter_by_length, bounded stand-in for the rest; 'other'")
+_pb("C12", "contract-based deductive verification (pyvc): lemma over the contract of lca (two distinct tokens always have a constituent lca that dominates both) + mover step of root_attach; bounded stand-in against the set-based reference",
+    "root_attach's target is never None and is a constituent dominating both neighbours (lemma over the proved lca "
+    "contract), and its re-attachment step keeps links consistent (block contract). That the result equals the documented "
+    "rule is bounded only (set-based reference).",
+    "lemmas + block contract proved, equality with the reference bounded; 'other'")
+_pb("C20", "contract-based deductive verification (pyvc + cvc5 strings) of parse_label, format_label, get_label and the round-trip / completeness lemmas; bounded exhaustive strings as cross-check",
+    "parse_label: parts glue back to the input (default literals may be absent), component shapes, trace iff starred, "
+    "head mark / co-index / gap index equal spec functions of the input, from which completeness of recognition follows "
+    "(lemma chain); format_label: component order and default handling; get_label: category followed by exactly the "
+    "requested decorations; round trip and 'emptying removes exactly that component' as lemmas over the contracts. "
+    "All obligations discharged for every string (no length bound).",
+    "every clause of the property is a discharged obligation or lemma; claimed as 'other' rather than 'proof' because the "
+    "evidence also carries the bounded cross-check and the string theory (isdigit uninterpreted, SMT strings) is trusted")
+PROPS["C02"]["technique"] = "contract-based deductive verification (pyvc) of export_tabs and export_format (over the contract of get_label); bounded stand-in (independent decoders) for the writers"
+PROPS["C02"]["explanation"] = ("export_tabs proved against the documented tab-stop table for every length (counter-models are replayed on the "
+                               "real function); export_format proved to produce word TABS [lemma TABS] label TAB morph TABS edge TAB parent NEWLINE "
+                               "with '--' for absent fields and to store nothing else; the writers as a whole are bounded only.")
+
+_pb("C05", "contract-based deductive verification (pyvc) of the re-attachment steps of boyd_split and raising as block contracts; bounded stand-in against the reference ref_raise",
+    "The four `children.remove` steps of boyd_split and raising (detach of the split node, move of each child) keep parent/"
+    "child links consistent (block contracts on the real statements). The transformations as a whole are outside the reach of "
+    "pyvc (lazy generator consumed while the tree it walks is mutated) and are bounded only.",
+    "block contracts proved, the property itself bounded (exhaustive shapes n<=5 x head assignments); 'other'")
+_pb("C13", "contract-based deductive verification (pyvc) of the mover steps of the three punctuation transformations and of the punctuation_verylow guard (a move never empties a constituent); bounded stand-in for the documented postconditions",
+    "Each re-attachment step keeps links consistent, moves only the punctuation token, and (verylow) the real guard expression "
+    "implies the old parent keeps a child. Where the tokens end up (the three documented postconditions) is bounded only.",
+    "block contracts and guard lemma proved, placement postconditions bounded; 'other'")
+_pb("C15", "contract-based deductive verification (pyvc: nested loop invariants over the assumed preorder/children contracts, heap frame on the head flag) of negra_mark_heads; bounded stand-in for the rule-based marker",
+    "negra_mark_heads is proved for every well-formed tree: after the call every constituent below the argument has exactly the "
+    "child selected by the NeGra heuristic (leftmost HD, else rightmost NK, else leftmost) marked as head and all other children "
+    "marked as non-head, the root is unmarked, and only head flags are written. mark_heads_by_rules / get_headpos_by_rule are "
+    "bounded only.",
+    "proof for negra_mark_heads (contracts of preorder/children assumed), bounded stand-in for rule-based marking; 'other'")
+
+_pb("C01", "contract-based deductive verification (pyvc) of export_parse_line (field map, v3/v4 detection, raises clauses, gf_split over the contract of parse_label); bounded stand-in (independent decoders, exhaustive bracket token-class sequences) for the readers",
+    "export_parse_line is proved for every line: the six fields are the whitespace-separated columns (dummy lemma inserted for "
+    "three-column files), parent_num is the integer of the last column, IndexError iff fewer than five columns, ValueError iff "
+    "too few fields / non-integer / out-of-range parent, and with gf_split label and edge are rebuilt from the named result of "
+    "parse_label. The readers as generators (files, automaton, tree building) are bounded only.",
+    "proof for the export field map, bounded stand-in for the readers; 'other'")
+_pb("C07", "contract-based deductive verification (pyvc) of LabelGenerator.next (fresh labels: counter strictly increasing); bounded stand-in (compose of binarization chains, exhaustive rule space) for binarization",
+    "LabelGenerator.next returns '@' + decimal(counter+1) + 'X' and increments the counter by one (so deterministic "
+    "binarization labels are pairwise distinct). That binarization preserves the yield function is bounded only.",
+    "proof for the label generator only, the property itself bounded (rule space exhaustive up to the bound); 'other'")
+_pb("C10", "contract-based deductive verification (pyvc) of transitions.topdown (the sequence is the reversed preorder of node actions; ValueError iff not binarized / heads missing); bounded stand-in: three replay automata",
+    "topdown is proved to emit, for every well-formed tree, exactly one action per node in reversed preorder (SHIFT / UNARY-label "
+    "/ BINARY-side-label with the side of the head child) and to raise ValueError exactly when some node has more than two "
+    "children or a binary node lacks head marks. That replaying rebuilds the tree, and the in-order and gap systems, are bounded "
+    "only.",
+    "proof of the shape of the top-down sequence, replay soundness bounded; 'other'")
